@@ -1,6 +1,7 @@
 //! Native replay crate: includes the harness sources of ../kani unchanged, plus the unit tests
 //! that `check` generates from Kani's concrete playback (`generated.rs`, not committed).
 #![allow(dead_code)]
+#![cfg_attr(kani, feature(formatting_options))]
 #![allow(unused_imports)]
 
 #[cfg(kani)]
